@@ -2,6 +2,7 @@ package main
 
 import (
 	"fmt"
+	"io"
 	"net/http"
 	"net/http/httptest"
 	"net/url"
@@ -135,7 +136,15 @@ func rtOptions(cfg []string) (name string, opts []mux.Option) {
 	if cfg[3] != "" {
 		opts = append(opts, mux.WithURLDomain(cfg[3]))
 	}
-	ic, _ := takeList(cfg[4:])
+	ic, rest := takeList(cfg[4:])
+	if len(rest) > 0 && rest[0] == "cors" {
+		og, r2 := takeList(rest[1:])
+		ah, r3 := takeList(r2)
+		ex, r4 := takeList(r3)
+		age := 0
+		fmt.Sscan(r4[0], &age)
+		opts = append(opts, mux.WithCORS(og, ah, ex, age, r4[1] == "1"))
+	}
 	for i := 0; i+1 < len(ic); i += 2 {
 		switch ic[i+1] {
 		case "any":
@@ -339,6 +348,63 @@ func (e *rtEnv) execRtOp(o []string) []string {
 				return e.r.URL(strict, o[3], paramsMap(kv))
 			}
 		})
+	case "creq":
+		hdr := http.Header{}
+		if o[3] != "" {
+			hdr.Set("Origin", o[3])
+		}
+		if o[4] != "" {
+			hdr.Set("Access-Control-Request-Method", o[4])
+		}
+		if o[5] != "" {
+			hdr.Set("Access-Control-Request-Headers", o[5])
+		}
+		obs, w := e.serve(e.r, o[1], o[2], "", hdr)
+		if obs[0] != "served" {
+			return obs
+		}
+		out := []string{obs[2], obs[4]}
+		for _, k := range []string{"Access-Control-Allow-Origin", "Access-Control-Allow-Credentials", "Access-Control-Allow-Methods",
+			"Access-Control-Allow-Headers", "Access-Control-Expose-Headers", "Access-Control-Max-Age", "Vary"} {
+			out = append(out, hdrField(w.Header(), k))
+		}
+		return out
+	case "script":
+		evs, _ := takeList(o[2:])
+		var out []string
+		for _, m := range []string{"GET", "HEAD"} {
+			rw := newRecW()
+			e.behave = func(w http.ResponseWriter, _ *http.Request, _ *H) { runScript(w, evs) }
+			req := &http.Request{Method: m, URL: &url.URL{Path: o[1]}, Header: http.Header{}, Proto: "HTTP/1.1", ProtoMajor: 1, ProtoMinor: 1}
+			e.last = seen{}
+			cls := guard(func() { e.r.ServeHTTP(rw, req) })
+			e.behave = nil
+			if cls != "" || !e.last.called || e.last.h == nil {
+				out = append(out, "panic")
+				continue
+			}
+			rw.finish()
+			out = append(out, e.last.h.coreID())
+			out = append(out, rw.obs()...)
+		}
+		return out
+	case "tracehelper":
+		// tracehelper <withbody> <escaped-len> method path body hk hv
+		rw := newRecW()
+		var body io.Reader
+		if o[5] != "" {
+			body = strings.NewReader(o[5])
+		}
+		req := httptest.NewRequest(o[3], "http://example.com"+o[4], body)
+		if o[6] != "" {
+			req.Header.Set(o[6], o[7])
+		}
+		cls := guard(func() { mux.Trace(rw, req, o[1] == "1") })
+		if cls != "" {
+			return []string{"panic", cls}
+		}
+		rw.finish()
+		return rw.obs()
 	case "syntax":
 		var err error
 		cls := guard(func() { err = mux.CheckSyntax(o[1]) })
@@ -382,3 +448,73 @@ func execRT(ops [][]string, w *W) {
 }
 
 func list(items ...string) []string { return append([]string{itoa(len(items))}, items...) }
+
+func hdrField(h http.Header, k string) string {
+	vs := h.Values(k)
+	if len(vs) == 0 {
+		return "-"
+	}
+	return "=" + strings.Join(vs, "\x1f")
+}
+
+// recW is a ResponseWriter that follows the documented contract and nothing else (no content
+// sniffing): the first WriteHeader or Write freezes the status and a copy of the headers.
+type recW struct {
+	h      http.Header
+	status int
+	sent   http.Header
+	body   int
+}
+
+func newRecW() *recW { return &recW{h: http.Header{}} }
+
+func (w *recW) Header() http.Header { return w.h }
+func (w *recW) WriteHeader(c int) {
+	if w.sent == nil {
+		w.status, w.sent = c, w.h.Clone()
+		if w.sent == nil {
+			w.sent = http.Header{}
+		}
+	}
+}
+func (w *recW) Write(b []byte) (int, error) {
+	w.WriteHeader(200)
+	w.body += len(b)
+	return len(b), nil
+}
+func (w *recW) finish() { w.WriteHeader(200) }
+func (w *recW) obs() []string {
+	keys := make([]string, 0, len(w.sent))
+	for k, v := range w.sent {
+		if len(v) > 0 {
+			keys = append(keys, k)
+		}
+	}
+	sort.Strings(keys)
+	out := []string{itoa(w.status), itoa(w.body), itoa(len(keys))}
+	for _, k := range keys {
+		out = append(out, k, strings.Join(w.sent[k], "\x1f"))
+	}
+	return out
+}
+
+func runScript(w http.ResponseWriter, evs []string) {
+	for i := 0; i+2 < len(evs); i += 3 {
+		switch evs[i] {
+		case "S":
+			w.Header().Set(evs[i+1], evs[i+2])
+		case "A":
+			w.Header().Add(evs[i+1], evs[i+2])
+		case "D":
+			w.Header().Del(evs[i+1])
+		case "H":
+			c := 0
+			fmt.Sscan(evs[i+1], &c)
+			w.WriteHeader(c)
+		case "W":
+			n := 0
+			fmt.Sscan(evs[i+1], &n)
+			w.Write(make([]byte, n))
+		}
+	}
+}
